@@ -42,8 +42,8 @@ def xb(v):
 def kin_blind(v):
     """Response values kin-openapi cannot judge: it reads an empty header value as 'no value' for every type."""
     for a, x in zip(v["ra"], v["rv"]):
-        if a["loc"] in ("header", "cookie") and not hg.is_absent(x) and (x["s"] == "empty" or x["cn"] == 0):
-            return True
+        if a["loc"] in ("header", "cookie") and not hg.is_absent(x) and (x["s"] == "empty" or x["cn"] == 0 or (a["kind"] == "bytes" and x["n"] == 0)):
+            return True        # (an empty byte string is an empty header value too)
     return False
 
 
